@@ -134,6 +134,16 @@ func (nsr *NamespaceResolver) ExprClosure(n *ast.ExprClosure) {
 	}
 }
 
+func (nsr *NamespaceResolver) ExprArrowFunction(n *ast.ExprArrowFunction) {
+	for _, parameter := range n.Params {
+		nsr.ResolveType(parameter.(*ast.Parameter).Type)
+	}
+
+	if n.ReturnType != nil {
+		nsr.ResolveType(n.ReturnType)
+	}
+}
+
 func (nsr *NamespaceResolver) StmtPropertyList(n *ast.StmtPropertyList) {
 	if n.Type != nil {
 		nsr.ResolveType(n.Type)
